@@ -121,6 +121,27 @@ type fakeConn struct {
 	// closed when the read deadline is cleared (Listener.serve does that just before it hands the connection over)
 	cleared     chan struct{}
 	clearedOnce sync.Once
+	// every read of the socket, in order: what the socket itself produced (specification oracle of runMux)
+	log []sockRead
+}
+
+type sockRead struct {
+	n   int
+	err string
+}
+
+func (c *fakeConn) nlog() int {
+	c.mu.Lock()
+	defer c.mu.Unlock()
+	return len(c.log)
+}
+
+func (c *fakeConn) Read(p []byte) (int, error) {
+	n, err := c.read(p)
+	c.mu.Lock()
+	c.log = append(c.log, sockRead{n, errName(err)})
+	c.mu.Unlock()
+	return n, err
 }
 
 func newFake(stream []byte, evs []ev) *fakeConn {
@@ -130,7 +151,7 @@ func newFake(stream []byte, evs []ev) *fakeConn {
 
 func (c *fakeConn) open() { c.gateOnce.Do(func() { close(c.gate) }) }
 
-func (c *fakeConn) Read(p []byte) (int, error) {
+func (c *fakeConn) read(p []byte) (int, error) {
 	for {
 		c.mu.Lock()
 		if !c.closed && !c.timedOut && len(p) > 0 && len(c.evs) > 0 && c.evs[0].kind == 'w' {
@@ -313,6 +334,9 @@ type muxObs struct {
 	drained  []byte
 	drainErr string
 	parked   bool // mux2: the connection really was parked at its gate while the other one was served
+	// specification oracle on the service's reads against what the socket itself produced (see svcSpec)
+	specClass, specImpl, specSpec string
+	specApplies                   bool
 }
 
 // watchdog budgets of the scripted run: the scripted connection never blocks, so a wait only
@@ -363,10 +387,14 @@ func (r *muxRig) runCase(stream []byte, evs []ev, sizes []int, drain bool, budge
 		o.extra = "nil-conn"
 		return
 	}
+	handedAt := fc.nlog()
+	var svc []svcRead
 	var parts []string
 	for _, k := range sizes {
 		buf := make([]byte, k)
+		lo := fc.nlog()
 		n, err := got.conn.Read(buf)
+		svc = append(svc, svcRead{n, errName(err), lo, fc.nlog()})
 		parts = append(parts, Hx(buf[:n])+":"+errName(err))
 		o.all = append(o.all, buf[:n]...)
 		o.lastErr = errName(err)
@@ -382,10 +410,13 @@ func (r *muxRig) runCase(stream []byte, evs []ev, sizes []int, drain bool, budge
 	o.drainErr = o.lastErr
 	for i := 0; drain && i < 1<<16 && (o.drainErr == "-" || o.drainErr == "") && len(o.drained) <= len(stream)+64; i++ {
 		buf := make([]byte, 8192)
+		lo := fc.nlog()
 		n, err := got.conn.Read(buf)
+		svc = append(svc, svcRead{n, errName(err), lo, fc.nlog()})
 		o.drained = append(o.drained, buf[:n]...)
 		o.drainErr = errName(err)
 	}
+	svcSpec(&o, fc, handedAt, svc)
 	// did Conn.Read switch to the raw connection?  Observable through the wrapper type only
 	// indirectly; the model's flag is compared through the `ops` op.  Here: exactly one delivery.
 	select {
@@ -394,6 +425,70 @@ func (r *muxRig) runCase(stream []byte, evs []ev, sizes []int, drain bool, budge
 	default:
 	}
 	return
+}
+
+// svcRead: one Read of the service on the connection it was handed; lo..hi = the reads of the
+// socket made during that call.
+type svcRead struct {
+	n      int
+	err    string
+	lo, hi int
+}
+
+// svcSpec: the specification of "the service reads the connection's original byte stream" on
+// scripts with pauses, time-outs and errors anywhere (no model involved: the service's reads
+// are compared with what the scripted socket itself produced, read by read).
+//   - an error a service read returns is the error the socket produced in a read made during
+//     that very call: an error of an earlier event (one a matcher already consumed while
+//     sniffing) must not come back, with or without bytes;
+//   - at the first error the service sees (where an ordinary reader stops) it has been given
+//     every byte the socket has delivered so far: nothing is left behind in the replay buffer.
+// Not applicable when the socket returned bytes together with an error while the connection
+// was being sniffed (an io.Reader may, a TCP connection does not; the replay then repeats that
+// error with those bytes, Props/C19 excludes the case likewise).
+func svcSpec(o *muxObs, fc *fakeConn, handedAt int, svc []svcRead) {
+	fc.mu.Lock()
+	log := append([]sockRead(nil), fc.log...)
+	fc.mu.Unlock()
+	for _, r := range log[:handedAt] {
+		if r.n > 0 && r.err != "-" {
+			return
+		}
+	}
+	o.specApplies = true
+	got, first := 0, true
+	for i, r := range svc {
+		got += r.n
+		if r.err == "-" {
+			continue
+		}
+		if r.hi > len(log) {
+			r.hi = len(log)
+		}
+		if first {
+			first = false
+			delivered := 0
+			for _, s := range log[:r.hi] {
+				delivered += s.n
+			}
+			if got != delivered {
+				o.specClass = "service-read-fails-before-all-delivered-bytes-are-read"
+				o.specImpl = fmt.Sprintf("service read #%d returns error %s after %d bytes in all", i+1, r.err, got)
+				o.specSpec = fmt.Sprintf("the socket had delivered %d bytes by then; an error only after all of them", delivered)
+				return
+			}
+		}
+		if r.hi == r.lo || log[r.hi-1].err != r.err {
+			sock := "no read of the socket during that call"
+			if r.hi > r.lo {
+				sock = "the socket's read during that call returned " + log[r.hi-1].err
+			}
+			o.specClass = "service-read-error-not-from-the-socket"
+			o.specImpl = fmt.Sprintf("service read #%d returns %d bytes and error %s", i+1, r.n, r.err)
+			o.specSpec = sock
+			return
+		}
+	}
 }
 
 // ---------------------------------------------------------------- two connections interleaved
@@ -1472,6 +1567,17 @@ func runMux(c *Ctx) {
 				cases = append(cases, muxCase{stream: []byte(pre), evs: evs, sizes: []int{4, 64, 16}, silent: pre == "" && end == 't'})
 			}
 		}
+		// a first segment of every length 1..20, then a pause past the sniff time-out / an error /
+		// an early EOF inside the matcher's read, then the rest; services with small and large buffers
+		for _, line := range []string{"DESCRIBE rtsp://h/live/a RTSP/1.0\r\nCSeq: 1\r\n\r\n", "OPTIONS * RTSP/1.0\r\nCSeq: 1\r\n\r\n", "GET /live/a.flv HTTP/1.1\r\nHost: x\r\n\r\n", "POST /api/v1/login HTTP/1.1\r\nContent-Length: 2\r\n\r\n{}"} {
+			for a := 1; a <= 20; a++ {
+				for _, end := range []byte{'t', 'o', 'e'} {
+					for _, sizes := range [][]int{{1, 1, 1, 4096, 16}, {4096, 16}, {a, 3, 4096, 16}, {7, 64, 16}} {
+						cases = append(cases, muxCase{stream: []byte(line), evs: []ev{{kind: 'd', n: a}, {kind: 'f', e: end}}, sizes: sizes})
+					}
+				}
+			}
+		}
 		n := c.Budget(12000, 150000)
 		for i := 0; i < n; i++ {
 			lc := genLine(c)
@@ -1501,14 +1607,14 @@ func runMux(c *Ctx) {
 		line := lines[2*i]
 		m := KV(outs[2*i])
 		cl := KV(outs[2*i+1])
-		o, pan := rig.runCase(k.stream, k.evs, k.sizes, k.clean, muxBudget)
+		o, pan := rig.runCase(k.stream, k.evs, k.sizes, true, muxBudget)
 		c.Eval(line, len(k.stream) > 0)
 		if o.route == "stuck" {
 			// an expired watchdog alone says nothing: once more, alone, on a fresh multiplexer, long budget
 			c.Count("mux-rerun-with-long-budget")
 			rig.root.Close()
 			rig = newRig()
-			o, pan = rig.runCase(k.stream, k.evs, k.sizes, k.clean, muxLongBudget)
+			o, pan = rig.runCase(k.stream, k.evs, k.sizes, true, muxLongBudget)
 		}
 		if o.route == "stuck" {
 			rig.root.Close()
@@ -1604,6 +1710,20 @@ func runMux(c *Ctx) {
 				} else if o.drainErr != "eof" {
 					c.Find(Finding{Kind: "oracle", Class: "service-no-eof", Case: line, Impl: o.drainErr, Spec: "eof"})
 				}
+			}
+			// any script (pauses, time-outs, errors anywhere): read by read against the socket
+			if pan == "" && o.specApplies {
+				if k.clean {
+					c.Count("mux-oracle-socket-errors-clean-script")
+				} else {
+					c.Count("mux-oracle-socket-errors-script-with-failures")
+				}
+				if o.specClass != "" {
+					c.Find(Finding{Kind: "oracle", Class: o.specClass, Case: line, Impl: o.specImpl, Spec: o.specSpec,
+						Detail: fmt.Sprintf("stream %q script %s", trunc(k.stream, 40), trunc([]byte(k.evsText), 60))})
+				}
+			} else if pan == "" {
+				c.Count("mux-oracle-socket-errors-skipped-data-with-error-while-sniffing")
 			}
 			if o.deadline {
 				c.Find(Finding{Kind: "oracle", Class: "sniff-deadline-left-armed", Case: line, Impl: "read deadline still set after hand-over", Spec: "cleared"})
